@@ -2729,7 +2729,10 @@ def distributed_shampoo(
       precond_dim = _precond_dim(compression_rank, stats.shape[0])
       # By assumption, precond_dim >= padding_start; we're cutting
       # off zeros here.
-      if generate_training_metrics and generate_fd_metrics:
+      # Mirror _fd_update_root, whose metrics carry an FDDiagnostics whenever
+      # generate_fd_metrics is set (also with generate_training_metrics off):
+      # both are branches of one lax.cond.
+      if generate_fd_metrics:
         metrics = metrics.replace(fd=FDDiagnostics())
       return root[:, :precond_dim], metrics
 
